@@ -584,7 +584,12 @@ def _make_init(cls: t.Type[PaneBase], fields: t.Sequence[Field]):
             if f.name in bound_args:
                 val = bound_args[f.name]
                 if checked:
-                    val = convert(val, f.type)
+                    if f.converter is not None:
+                        # the field's own converter, as when converting from data
+                        val = f.converter.convert(val)
+                    else:
+                        # with the handlers of this class (`custom=`, own or inherited), as when converting from data
+                        val = convert(val, f.type, custom=self.__pane_info__.opts.class_handlers or None)
                 set_fields.add(f.name)
             elif f.default is not _MISSING:
                 val = f.default
